@@ -1,5 +1,6 @@
 /- driver protocol for Model/Writer.lean (C19, C20) -/
 import MdVerif.Model.Writer
+import MdVerif.Model.FileSys
 namespace MdVerif.Driver.WriterP
 open MdVerif.Writer
 
@@ -29,6 +30,15 @@ def handleWriter : List String → String
     | some fmt, some os =>
       let w := run (policy fmt) W.init os
       s!"close={showNats (closeLoad w)} crash={showNats (crashLoad w)} acc={"".intercalate (flags (policy fmt) W.init os)}"
+    | _, _ => "bad-op"
+  -- fsys <name=id,…|-> <force> <name=id,…>: the directory after writing the listed files one after the other, and whether it was refused
+  | ["fsys", entries, force, writes] =>
+    let parse := fun (s : String) => if s == "-" then some [] else (s.splitOn ",").mapM (fun kv => match kv.splitOn "=" with
+      | [k, v] => some (k, v) | _ => none)
+    match parse entries, parse writes with
+    | some d, some ws =>
+      let r := MdVerif.FileSys.saveMany (force == "1") (d : MdVerif.FileSys.Dir String) ws
+      s!"err={if r.2 then 1 else 0} " ++ ",".intercalate (r.1.map (fun e => s!"{e.1}={e.2}"))
     | _, _ => "bad-op"
   | ["save", ex, force] =>
     let r := save (⟨if ex == "1" then some 0 else none⟩ : FS Nat) (force == "1") 1
